@@ -773,7 +773,46 @@ class Class(Node):
         # Exclude the root node's name
         return ComponentRef.from_tuple(tuple(reversed(names[:-1])))
 
+    # Everything a class definition consists of besides its name, its nested
+    # classes and its place in the tree
+    _DEFINITION_ATTRIBUTES = (
+        "imports",
+        "extends",
+        "encapsulated",
+        "partial",
+        "final",
+        "type",
+        "comment",
+        "symbols",
+        "functions",
+        "initial_equations",
+        "equations",
+        "initial_statements",
+        "statements",
+        "annotation",
+    )
+
+    def _is_placeholder(self) -> bool:
+        """
+        True if this is a package that holds nothing but nested classes, like
+        the packages the parser creates for the names in a within clause. Such
+        a package only says where its nested classes live; the definition of
+        the package itself may still come from another file.
+        """
+        return self.type == "package" and not any(
+            getattr(self, attribute)
+            for attribute in self._DEFINITION_ATTRIBUTES
+            if attribute != "type"
+        )
+
     def _extend(self, other: "Class") -> None:
+        if self._is_placeholder():
+            # The definition of the package arrives after a file that only
+            # declared classes within it: take over everything but the classes,
+            # which are merged below.
+            for attribute in self._DEFINITION_ATTRIBUTES:
+                setattr(self, attribute, getattr(other, attribute))
+
         for class_name in other.classes.keys():
             if class_name in self.classes.keys():
                 self.classes[class_name]._extend(other.classes[class_name])
